@@ -310,8 +310,19 @@ func c08groups() []c08group {
 	}
 	dec := func(s []byte) (*internal.SM2Point, *internal.SM2Point) {
 		la := int(s[0])
-		p1, _ := internal.NewSM2Point().SetBytes(s[1 : 1+la])
-		p2, _ := internal.NewSM2Point().SetBytes(s[1+la:])
+		// every operand is built by the same sequence of calls whatever its value (as the secret-dependent points of the
+		// library are: they come out of Select / MultiSelect / Add / Double, never out of a decoder that is given one of
+		// two encodings by the secret): decode a finite point, make an infinity, take one of the two by Select. A point
+		// that remembers how it was built then has the same memory for every operand value
+		mk := func(enc []byte) *internal.SM2Point {
+			finite := 1
+			if len(enc) == 1 {
+				enc, finite = encs["G"], 0
+			}
+			fin, _ := internal.NewSM2Point().SetBytes(enc)
+			return internal.NewSM2Point().Select(fin, internal.NewSM2Point(), finite)
+		}
+		p1, p2 := mk(s[1:1+la]), mk(s[1+la:])
 		// scale through a doubling-free path so that Z != 1 as well: p + O
 		return internal.NewSM2Point().Add(p1, internal.NewSM2Point()), p2
 	}
@@ -573,6 +584,7 @@ func TestVX_C08(t *testing.T) {
 			continue
 		}
 		var ref trace.Result
+		extVaries := map[uint32]bool{} // hooked operand lists that are not the same for every secret of the group
 		distinct := map[uint64]bool{}
 		same := func(a, b trace.Result) bool { return a.Hash == b.Hash && a.Events == b.Events }
 		// warm-up: what the first call of a process does differently (a pool's constructor, a lazily built table) is
@@ -597,6 +609,11 @@ func TestVX_C08(t *testing.T) {
 				executedFuncs[g.name] = fs
 			}
 			distinct[res.Hash^res.Events<<48] = true
+			for xs, ops := range ref.Ext {
+				if fmt.Sprint(res.Ext[xs]) != fmt.Sprint(ops) {
+					extVaries[xs] = true
+				}
+			}
 			if !same(res, ref) {
 				// secret-dependent or history-dependent (pools emptied by the collector, caches)? The sequence A A B B A B
 				// (A = the group's first secret, B = this one) is recorded repeatedly until two consecutive passes agree
@@ -664,6 +681,11 @@ func TestVX_C08(t *testing.T) {
 				if strings.Contains(x.Callee, a) {
 					ok = true
 				}
+			}
+			if !ok && strings.HasPrefix(x.Callee, "runtime.memequal [") && x.XSite != 0 && !extVaries[x.XSite] {
+				// a compiler-generated memory comparison whose operands are the same values for every secret of the group
+				// (a flag-guarded test against a constant, a comparison of public inputs) cannot tell the secrets apart
+				ok = true
 			}
 			if !ok && !c08operandsPublic(g, ref, x) {
 				r.Violation(fmt.Sprintf("ct:external-callee:%s:%s->%s", g.name, x.Func, x.Callee), fmt.Sprintf("%s: executed block at %s in %s calls %s on the secret path; its control flow is invisible to the monitor and it is not on the constant-time whitelist (math/bits, crypto/subtle, error constructors)", g.name, x.Loc, x.Func, x.Callee), c08case{Group: g.name, Secret: g.secrets[0], Other: g.secrets[0]})
